@@ -93,6 +93,12 @@ def generate(streams: core.Streams, tier: str) -> dict:
             pipeline["transformations"].append(
                 {"type": "field_name_mapping", "mapping": {"User": ["u.one", "u.two", "u.three"], "Image": ["i.a", "i.b"]}})
             kinds.add("one_to_many_mapping")
+            if gen.chance(w, 0.6):  # the mapped fields also occur as *referenced* fields
+                victim = gen.pick(w, [d for d in docs if "detection" in d])
+                victim["detection"]["refs"] = {"EventID|fieldref": "User", "a.b|fieldref": "Image"}
+                first = next(k for k in victim["detection"] if k not in ("condition", "refs"))
+                victim["detection"]["condition"] = f"{first} or refs"
+                kinds.add("fieldref_to_one_to_many_mapped_field")
         if gen.chance(w, 0.25):
             pipeline["transformations"].append(
                 {"type": "nest", "items": [
